@@ -13,7 +13,7 @@ from .runner import Violation
 ID = "C17"
 RULE = ("plan = two independent initial lists (0..5 and 0..4 items) + history of ≤ 25 steps (≤ 60 thorough) interpreted over a growing pool of lists; each "
         "step picks a pooled receiver (and a pooled second operand for binary ops) and an op: share (filter, sort, unique, head, "
-        "tail, slice, copy, reverse, sample, semi/anti join, append, extend, insert, +, *, drop_na, clear), deepcopy, edit (modify, "
+        "tail, slice, copy, reverse, sample, semi/anti join, append, extend, insert, +, *, drop_na, clear), deepcopy, full_join, edit (modify, "
         "modify_if, rename, select, unselect, fill_missing_keys, inner_join, left_join) or use (pluck / keys / to_json). Model: "
         "derivation tree with obsolete / warned flags and item-origin sets. Invariants after every step: real _obsolete flag == "
         "model for every pooled list; the warning is printed exactly once iff the receiver was obsolete and unwarned; after a "
@@ -63,7 +63,7 @@ def _plan(draw, max_steps):
         elif kind == "forget":
             op = "forget"
         else:
-            op = "deepcopy"
+            op = draw(st.sampled_from(["deepcopy", "deepcopy", "full_join"]))
         steps.append({"op": op, "i": draw(st.integers(0, 30)), "j": draw(st.integers(0, 30)),
                       "a": draw(st.integers(0, 3))})
     return {"items": items, "items2": items2, "steps": steps}
@@ -112,7 +112,7 @@ def nontrivial(plan):
             if dc_after_derive:
                 hit = True
             depth.append(depth[i] + 1); parent.append(i)
-        elif op == "deepcopy":
+        elif op in ("deepcopy", "full_join"):
             if depth[i] >= 1:
                 dc_after_derive = True
             depth.append(0); parent.append(None)
@@ -168,7 +168,7 @@ def check(plan, ctx):
                 ctx.cls("op_forget")
             continue
         x, y = node.real, other.real
-        needs_k = op in ("semi_join", "anti_join", "inner_join", "left_join", "sort", "unique", "modify_if")
+        needs_k = op in ("semi_join", "anti_join", "inner_join", "left_join", "full_join", "sort", "unique", "modify_if")
         may_raise = False
         if needs_k and not (_has_k(x) and (_has_k(y) or "join" not in op)):
             if op in SHARE:
@@ -180,6 +180,8 @@ def check(plan, ctx):
         origins_before = [set(n.origins) for n in pool]
         recv_origins_before = set(node.origins)
         expect_warning = node.obsolete and not node.warned
+        # full_join works on deep copies of both operands: taking the copy is a use of the right-hand list too
+        expect_other = op == "full_join" and other is not node and other.obsolete and not other.warned
         buf = io.StringIO()
         random.seed(a)
         with contextlib.redirect_stdout(buf):
@@ -206,19 +208,25 @@ def check(plan, ctx):
         nwarn = printed.count(WARNING)
         if printed.replace(WARNING + "\n", "") != "":
             raise Violation("unexpected output", step=stepno, op=op, text=printed)
-        if nwarn != (1 if expect_warning else 0):
+        if nwarn != (1 if expect_warning else 0) + (1 if expect_other else 0):
             raise Violation("obsolescence warning not printed exactly once on the next use of an obsolete list",
-                            step=stepno, op=op, printed=nwarn, expected=int(expect_warning),
+                            step=stepno, op=op, printed=nwarn, expected=int(expect_warning) + int(expect_other),
                             obsolete=node.obsolete, warned=node.warned)
         if expect_warning:
             node.warned = True
+        if expect_other:
+            other.warned = True
         ctx.cls("op_" + op)
 
         if op in USE:
             new = None
-        elif op == "deepcopy":
+        elif op in ("deepcopy", "full_join"):
+            # full_join is built from deep copies of both operands: its result shares nothing with either, neither
+            # becomes obsolete, and whatever is done to the result later can never be seen through them
             new = Node(res, None, {next_origin[0]}, 0)
             next_origin[0] += 1
+            if op == "full_join" and (len(x) == 0 or len(y) == 0):
+                ctx.cls("full_join_with_empty_operand")
         elif op in EDIT:
             if op in ("rename", "select"):
                 # new top-level dicts, but nested values are still the same objects
@@ -253,7 +261,7 @@ def check(plan, ctx):
             if not isinstance(new.real, di.ListOfDicts):
                 raise Violation(f"{op} did not return a ListOfDicts", step=stepno)
             pool.append(new)
-            if op in EDIT or op == "deepcopy":
+            if op in EDIT or op in ("deepcopy", "full_join"):
                 if new.real._obsolete:
                     raise Violation(f"result of {op} reports itself obsolete", step=stepno)
 
@@ -296,6 +304,7 @@ def _apply(op, x, y, a, fresh_item):
     if op == "clear": return x.clear()
     if op == "group_by": return x.group_by("k")
     if op == "deepcopy": return x.deepcopy()
+    if op == "full_join": return x.full_join(y, "k")
     if op == "modify": return x.modify(v=lambda it: a)
     if op == "modify_nested":
         def touch(it):
